@@ -1332,6 +1332,10 @@ type c06CorpusCase struct {
 }
 
 var c06Corpus = []c06CorpusCase{
+	// keys the file cannot hold (empty, 65536 bytes) are refused by every request that could create a record;
+	// the longest storable key (65535 bytes) is an ordinary key
+	{[]string{"mem", "p1"}, []string{"set 11 k0|i64:1||||| |i64:2|||||", "issw", "inc i64 x@65536 1 - - -", "push :1", "push k1:1 x@70000:2", "issw",
+		"set 11 x@65535|i64:5||||| k0|i64:1|||||", "inc i64 x@65535 1 - - -", "getall", "iske x@65535", "del x@65535 k0", "issw"}},
 	{[]string{"mem", "p1"}, []string{"set 11 k0|i64:5|||||", "set 11 k0|i64:5|||||", "get k0"}},
 	{[]string{"mem", "p1"}, []string{"set 11 k0|i64:5||u1|||", "set 11 k0|i64:5||u1|||"}},
 	{[]string{"mem", "p1"}, []string{"set 11 k0|i64:5|||||a-500000000", "inc i64 k0 1 - - -", "get k0"}},
